@@ -624,17 +624,19 @@ theorem C15_load_config_image (v : View) (t : Ref) :
 
 /-- `security_cookie`: the aligned dword at virtual address `SecurityCookie`; `se_handler_table`:
 `SEHandlerCount` pointer-sized entries at virtual address `SEHandlerTable` (`Overflow` when the byte
-count does not fit a `usize`). -/
+count does not fit a `usize`, `Null` first when the table address is zero). -/
 theorem C15_load_config_fields (v : View) (t : Ref) (r : Ref) :
     (lcSecurityCookie v t = .ok r ↔ ∃ s, v.at (.va (lcCookieVa v t)) 4 4 = .ok s ∧ r = ⟨s.off, 4, 4⟩) ∧
     (lcSeHandlerTable v t = .ok r ↔ v.fmt.ptrSize * lcCount v t < 18446744073709551616 ∧
       ∃ s, v.at (.va (lcTableVa v t)) (v.fmt.ptrSize * lcCount v t) v.fmt.ptrSize = .ok s ∧
         r = ⟨s.off, v.fmt.ptrSize * lcCount v t, v.fmt.ptrSize⟩) ∧
-    (v.fmt.ptrSize * lcCount v t ≥ 18446744073709551616 → lcSeHandlerTable v t = .err .overflow) := by
+    (v.fmt.ptrSize * lcCount v t ≥ 18446744073709551616 →
+      lcSeHandlerTable v t = .err (if lcTableVa v t = 0 then .null else .overflow)) := by
   unfold lcSecurityCookie lcSeHandlerTable
   refine ⟨C05_derva v _ 4 4 r, C05_derva_slice v _ _ _ _ r, fun h => ?_⟩
-  unfold View.dervaSlice
+  rw [dervaSlice_unfold]
   rw [if_pos h]
+  simp [Addr.isZero]
 
 /-! ## security directory -/
 
